@@ -62,9 +62,11 @@ HaloSrc(n, lo, hi, off, par, i) ==
 
 \* padded sample of component (ft, c) of the field F at p \in (-1..N)^3; halos of different axes compose
 PadVal(F(_, _), N, lo, hi, ft, c, p) ==
-    LET S(a) == HaloSrc(N[a + 1], lo[a + 1], hi[a + 1], U!YeeOffset(ft, c, a), U!Parity(ft, c, a, -1), p[a + 1])
-        sg == S(0)[2] * S(1)[2] * S(2)[2]
-    IN  IF sg = 0 THEN 0 ELSE sg * F(c, << S(0)[1], S(1)[1], S(2)[1] >>)
+    LET s0 == HaloSrc(N[1], lo[1], hi[1], U!YeeOffset(ft, c, 0), U!Parity(ft, c, 0, -1), p[1])
+        s1 == HaloSrc(N[2], lo[2], hi[2], U!YeeOffset(ft, c, 1), U!Parity(ft, c, 1, -1), p[2])
+        s2 == HaloSrc(N[3], lo[3], hi[3], U!YeeOffset(ft, c, 2), U!Parity(ft, c, 2, -1), p[3])
+        sg == s0[2] * s1[2] * s2[2]
+    IN  IF sg = 0 THEN 0 ELSE sg * F(c, << s0[1], s1[1], s2[1] >>)
 
 \* ---------------------------------------------------------------- the co-location formula
 Sum2(f) == IF Len(f) = 1 THEN f[1] ELSE f[1] + f[2]
